@@ -266,8 +266,15 @@ func Run(r *vh.Run) {
 	for i := 0; i < trees; i++ {
 		trng := rng.Fork()
 		net := chainx.RandomNet(trng)
-		t := chainx.GenTree(trng, net, chainx.GenCfg{Main: 4 + trng.Intn(10), Forks: 1 + trng.Intn(3), MaxBranch: 3 + trng.Intn(8),
+		t, gerr := chainx.SafeGenTree(trng, net, chainx.GenCfg{Main: 4 + trng.Intn(10), Forks: 1 + trng.Intn(3), MaxBranch: 3 + trng.Intn(8),
 			Kinds: chainx.AllKinds(), TxPerBlk: 2, Corrupt: trng.Intn(2), Extend: 2})
+		if gerr != nil {
+			gc := &vh.Case{Name: fmt.Sprintf("tree%d/generator", i), Nontrivial: true}
+			gc.Op("build-history", "panic")
+			gc.Oracle("linear-node-panicked-while-building-history", "a node fed a linear chain of freshly mined blocks panicked or rejected a valid block: %v", gerr)
+			r.Add(gc)
+			continue
+		}
 		for s := 0; s < 2; s++ {
 			RunTree(r, trng, fmt.Sprintf("tree%d/s%d", i, s), t, t.Schedule(trng))
 		}
